@@ -8,6 +8,7 @@
   rounding of `+ - * /`.
 -/
 import ShelxModel.C15
+import ShelxModel.Extracted.C15Dir
 import Mathlib.Tactic.Ring
 import Mathlib.Tactic.Linarith
 import Mathlib.Tactic.FieldSimp
@@ -654,5 +655,18 @@ theorem mem_filterIdx {α : Type} (p : Nat → α → Bool) (l : List α) (k j :
         refine ⟨b, by omega, ?_, hpb⟩
         have : j - k = (j - (k + 1)) + 1 := by omega
         rw [this, List.getElem?_cons_succ] at hb; exact hb
+
+
+/-- **extracted_direction_eq_triple**: the sign expression *as the source has it now* — read off
+    `Atoms.torsion_angle` by extract/tables_c15.py on every run and expanded in the coordinates of the four atoms —
+    is the triple product of the bond vectors.  An edit of any term of the hand-expanded polynomial breaks this proof. -/
+theorem extracted_direction_eq_triple {K : Type} [Field K] (p1 p2 p3 p4 : V3 K) :
+    Extracted.directionSrc p1 p2 p3 p4 = triple (p2.sub p1) (p3.sub p2) (p4.sub p3) := by
+  simp only [Extracted.directionSrc, triple, V3.sub]; ring
+
+/-- hence the model's `direction` is the source's expression -/
+theorem direction_eq_extracted {K : Type} [Field K] (p1 p2 p3 p4 : V3 K) :
+    direction p1 p2 p3 p4 = Extracted.directionSrc p1 p2 p3 p4 := by
+  rw [direction_eq, extracted_direction_eq_triple]
 
 end Shelx.C15
